@@ -7,6 +7,7 @@ import (
 	"bytes"
 	"fmt"
 	"math/rand"
+	"os"
 	"regexp"
 	"runtime"
 	"sort"
@@ -373,20 +374,24 @@ func (w *World) Diagnose(window time.Duration) (wedged bool, report string) {
 	time.Sleep(window)
 	s2 := MqttStacks()
 	n2 := w.Now()
-	same := n1 == n2 && len(s1) == len(s2)
+	// No observable event over the window and the same call stacks at function
+	// level: blocked for good, or spinning without effect (a goroutine caught
+	// runnable at both instants inside the same functions is not progress).
+	f1, f2 := funcStacks(s1), funcStacks(s2)
+	same := n1 == n2 && len(f1) == len(f2)
 	if same {
-		for i := range s1 {
-			if s1[i] != s2[i] {
+		for i := range f1 {
+			if f1[i] != f2[i] {
 				same = false
 			}
 		}
 	}
-	for _, s := range s2 {
-		if strings.Contains(s, "[running]") || strings.Contains(s, "[runnable]") {
-			same = false
-		}
-	}
 	var b strings.Builder
+	if os.Getenv("VERIF_DEBUG_DIAG") != "" {
+		fmt.Printf("DIAG n1=%d n2=%d f1=%q f2=%q\n", n1, n2, f1, f2)
+		fmt.Printf("DIAG same=%v\n--- first\n%s\n--- second\n%s\n", same, strings.Join(s1, "\n\n"), strings.Join(s2, "\n\n"))
+		fmt.Fprintf(&b, "DIAG same=%v\n--- first\n%s\n--- second\n%s\n", same, strings.Join(s1, "\n\n"), strings.Join(s2, "\n\n"))
+	}
 	fmt.Fprintf(&b, "events %d→%d over %v; %d library goroutines\n", n1, n2, window, len(s2))
 	for _, s := range s2 {
 		b.WriteString(shortStack(s))
@@ -467,3 +472,22 @@ func (w *World) WaitReaderQuiet(timeout time.Duration) bool {
 
 // ReaderQuietLocked is readerQuiet for use inside WaitUntil.
 func (w *World) ReaderQuietLocked() bool { return w.readerQuiet() }
+
+// ResetGate closes the named gate again.
+func (w *World) ResetGate(name string) {
+	w.Mu.Lock()
+	w.Gate(name).open = false
+	w.Mu.Unlock()
+}
+
+var lineRE = regexp.MustCompile(`(?m)^\t.*$\n?|^ ?\[[^\]]*\]:`)
+
+// funcStacks reduces normalised stacks to their function names.
+func funcStacks(stacks []string) []string {
+	out := make([]string, len(stacks))
+	for i, s := range stacks {
+		out[i] = lineRE.ReplaceAllString(s, "")
+	}
+	sort.Strings(out)
+	return out
+}
